@@ -2018,6 +2018,14 @@ impl Parser {
                     let ty = Self::r#type(child)?;
                     type_vec.push(ty);
                 }
+                // the grammar lets the last element be `T...`; a list type that is both fixed-shape and growable is not a type of the language
+                Rule::open_ended_type => {
+                    return Err(new_err(
+                        child.as_span(),
+                        &child.user_data().get_source_file_name(),
+                        "a list type is either fixed-shape (`[A, B]`) or growable (`[T...]`); `...` after the last of several element types is not supported".to_owned(),
+                    ));
+                }
                 other_rule => unreachable!("{other_rule:?}"),
             }
         }
